@@ -220,7 +220,19 @@ def run(repo: Repo, L: Ledger, tier: str):
     srev = scf.methods.get("reverse")
     if srev is None:
         raise AnalysisError("anchor Scaffold.reverse vanished")
-    _scaffold_reverse(repo, L, scf, srev)
+    from .shared import rows_memo_verdict
+
+    mv = rows_memo_verdict(repo, scf, srev)
+    if mv is not None:
+        _, mm, attr_, g_, node_ = mv
+        L.fail(
+            "R4", srev.short + ":memo",
+            f"the reversed rows are kept in self.{attr_} by {mm.short} and reused without looking at the rows again, but {g_.short} changes the rows in place ('{norm(node_)[:50]}') without dropping that memo: "
+            "a later reverse() returns the reversal of rows the scaffold no longer has, so reversing twice does not give back the scaffold and the streamed minus-strand sequence is not the reverse complement of the plus-strand one",
+            g_.loc(node_), witness={"history": f"s.reverse(); {g_.name}(...); s.reverse()"},
+        )
+    else:
+        _scaffold_reverse(repo, L, scf, srev)
 
     # ---- R5 siblings
     from .shared import chunker_siblings
